@@ -465,7 +465,9 @@ type c17Run struct {
 	segMS     int64
 	lastMPD   *recvMPD
 	ino       *c17Inotify
-	pending   []*c17Pending // slow uploads whose body has not arrived yet
+	verbatim  map[string]bool   // files whose last accepted upload was stored under its incoming number, unchanged
+	incoming  map[string]string // <track>/<incoming number><ext> -> hash of the last body uploaded with that number
+	pending   []*c17Pending   // slow uploads whose body has not arrived yet
 	slowDone  bool
 	// slowOverStart: an upload was in flight across the channel start
 	slowOverStart bool
@@ -704,6 +706,10 @@ func (r *c17Run) completed(op c17Op, ts *c17TrackState, body []byte, resp *hx.Re
 		panic("harness: cannot parse the uploaded segment: " + sm.Err)
 	}
 	nr := int64(sm.Seq) - int64(r.ch.StartNr)
+	if r.incoming == nil {
+		r.incoming = map[string]string{}
+	}
+	r.incoming[fmt.Sprintf("%s/%d%s", op.Tr, nr, ts.def.Ext)] = hx.ShortHash(body)
 	if op.Slow > 0 && nr < ts.maxNr {
 		ts.lateSlow = true
 	}
@@ -989,7 +995,7 @@ func (r *c17Run) observe(track string, full bool) {
 			continue
 		}
 		if int64(len(nrs)) > r.bound {
-			res.Violate("C17.within-window", r.sig("kind", "stored-count", "overtaken-slow-upload-of-track", fmt.Sprint(ts.lateSlow)),
+			res.Violate("C17.within-window", r.sig("kind", "stored-count", "overtaken-slow-upload-of-track", fmt.Sprint(ts.lateSlow), "after-restart-nonvideo-first", fmt.Sprint(r.nonVideoFirst)),
 				"track %s stores %d segments %v > bound %d (tsbd %d s, segment %d ms) after step %d", trn, len(nrs), nrs,
 				r.bound, r.w.tsbdOf(r.ch), r.segMS, r.step)
 		}
@@ -1111,7 +1117,8 @@ func (r *c17Run) checkTimeline(m *recvMPD) {
 				if sm.Tfdt == s.T {
 					which = "d"
 				}
-				res.Violate("C17.mpd-agrees-with-storage", r.sig("kind", "listed-timing-differs", "which", which, "content", rep.ContentType, "after-restart-nonvideo-first", fmt.Sprint(r.nonVideoFirst)),
+				res.Violate("C17.mpd-agrees-with-storage", r.sig("kind", "listed-timing-differs", "which", which, "content", rep.ContentType, "after-restart-nonvideo-first", fmt.Sprint(r.nonVideoFirst), "after-restart", fmt.Sprint(r.restarts > 0), "channel-renumbers", fmt.Sprint(r.rewrites),
+					"overwritten-under-incoming-number", fmt.Sprint(r.rewrites && r.incoming[rel] != "" && r.incoming[rel] == r.snap[rel].Hash)),
 					"%s: MPD lists t=%d d=%d, the stored segment has tfdt=%d duration=%d", rel, s.T, s.D, sm.Tfdt, sm.Dur)
 			}
 		}
@@ -1151,6 +1158,10 @@ func (r *c17Run) checkStored(op c17Op, ts *c17TrackState, body []byte, sm c17Seg
 	want := fmt.Sprintf("%s/%d%s", op.Tr, nr, ext)
 	if f, ok := r.snap[want]; ok && f.Hash == hx.ShortHash(body) {
 		res.Count("probe.stored-verbatim")
+		if r.verbatim == nil {
+			r.verbatim = map[string]bool{}
+		}
+		r.verbatim[want] = true // stored under its incoming number, unchanged
 		ts.lastStored = nr
 		return
 	}
@@ -1201,6 +1212,7 @@ func (r *c17Run) checkStored(op c17Op, ts *c17TrackState, body []byte, sm c17Seg
 		}
 		res.Count("probe.stored-rewritten")
 		r.rewrites = true
+		delete(r.verbatim, name)
 		n, _ := strconv.ParseInt(strings.TrimSuffix(strings.TrimPrefix(name, pre), ext), 10, 64)
 		ts.lastStored = n
 		if int64(st.Seq) != n {
@@ -1246,9 +1258,12 @@ func (r *c17Run) liveness(ops []c17Op) {
 		if !okBlk || (lastIdx >= 0 && blk[0].Idx != lastIdx-1) {
 			break
 		}
-		// the numbers must be new for every track
-		for _, op := range ups[:end-nTr] {
+		// the numbers must be new for every track, and no slow upload of before may complete inside the tail
+		for j, op := range ups[:end-nTr] {
 			if op.Kind == "up" && !op.Init && op.Idx >= blk[0].Idx {
+				okBlk = false
+			}
+			if op.Slow > 0 && j+op.Slow >= end-nTr {
 				okBlk = false
 			}
 		}
